@@ -20,10 +20,15 @@ ENV.pop("GOWORK", None)
 CACHE_ROOT = tempfile.mkdtemp(prefix="s2seedcache-")
 ENV["GOCACHE"] = os.path.join(CACHE_ROOT, "gocache")
 
+BASEFAILS = {}
+
 def run_prop(repo, p):
     env = ENV if repo != "/repo" else {k: v for k, v in ENV.items() if k != "GOCACHE"}
     r = subprocess.run([S2LINT, "-prop", p, "-tier", "quick", "-repo", repo, "-noreplay"], capture_output=True, text=True, env=env)
     fails = re.findall(r"^FAIL (\S+)", r.stdout, re.M)
+    if repo != "/repo" and p in BASEFAILS:
+        fails = [f for f in fails if f not in BASEFAILS[p]]
+        return p, (1 if fails else 0), fails
     return p, r.returncode, fails
 
 def copy_tree(dst):
@@ -59,9 +64,14 @@ def main():
         print("repo dirty"); sys.exit(2)
     with ThreadPoolExecutor(JOBS) as ex:
         base = list(ex.map(lambda p: run_prop("/repo", p), PROPS))
+    global BASEFAILS
     for p, rc, fails in base:
         if rc != 0:
-            print("BASELINE FAILS", p, fails); sys.exit(1)
+            if os.environ.get("ALLOW_BASELINE", "") != "1":
+                print("BASELINE FAILS", p, fails); sys.exit(1)
+            # an older checker binary on a tree repaired since: what already fails on the unchanged tree is not counted
+            print("baseline fails (ignored for every change):", p, fails)
+            BASEFAILS[p] = set(fails)
     only = sys.argv[1:]
     dirs = [d for d in sorted(glob.glob("/verif/seeded/C*-*m[0-9]")) if not only or os.path.basename(d) in only]
     results = {}
